@@ -3,6 +3,7 @@ package checks
 import (
 	"fmt"
 	"math"
+	"sort"
 	"strconv"
 	"strings"
 
@@ -401,6 +402,69 @@ func C16(c *fw.Ctx) {
 				if got.stdout != "true\nfalse\n" || got.status != 0 {
 					c.Violate(fw.Replay{Sig: "C16|equal-across-producers|" + strings.SplitN(vs.label, " ", 2)[0], What: "the same value from two producers must be equal (" + vs.label + ": " + p.Name + " == " + q.Name + ")", Mode: "file", Program: src, Stdin: stdin, CLI: true,
 						Expected: "true / false", Observed: fmt.Sprintf("stdout %q diag %q status %d", got.stdout, got.diag, got.status), InStdout: o.Stdout, InStderr: o.Stderr, InStatus: o.Status})
+				}
+			}
+		}
+	}
+	// long texts: the same text of n characters (n around 2^12 and 2^13, ASCII and Bangla) from a literal,
+	// from two halves joined by +, from a variable, from a function and from ইনপুট, in eight contexts
+	{
+		for _, unit := range []string{"x", "\u0995", "7"} {
+			for _, n := range []int{4095, 4096, 4097, 8191, 8192, 8193} {
+				if !c.Mine() {
+					continue
+				}
+				text := strings.Repeat(unit, n)
+				prods := []producer{
+					{"literal", func() *model.N { return model.Str(text) }, ""},
+					{"halves", func() *model.N {
+						return model.Grp(model.Bin("+", model.Str(text[:len(text)/2/len(unit)*len(unit)]), model.Str(text[len(text)/2/len(unit)*len(unit):])))
+					}, ""},
+					{"variable", func() *model.N { return model.Id("lv") }, ""},
+					{"function-result", func() *model.N { return model.CallN("lf") }, ""},
+					{"input", func() *model.N { return model.CallN(model.BiInput) }, text + "\n"},
+					{"input-latin-name", func() *model.N { return model.CallN(model.BiInputLatin) }, text + "\n"},
+				}
+				ctxs := map[string]func(hh *model.N) []*model.N{
+					"equals-literal": func(hh *model.N) []*model.N { return []*model.N{model.Print(model.Bin("==", hh, model.Str(text)))} },
+					"print":          func(hh *model.N) []*model.N { return []*model.N{model.Print(hh)} },
+					"in-array":       func(hh *model.N) []*model.N { return []*model.N{model.Print(model.Arr(hh, model.Num(1)))} },
+					"concat": func(hh *model.N) []*model.N {
+						return []*model.N{model.Print(model.Bin("+", model.Bin("+", model.Str("<"), hh), model.Str(">")))}
+					},
+					"times-two": func(hh *model.N) []*model.N { return []*model.N{model.Print(model.Bin("*", hh, model.Num(2)))} },
+					"condition": func(hh *model.N) []*model.N { return []*model.N{model.If(hh, T("then"), T("else"))} },
+					"as-key": func(hh *model.N) []*model.N {
+						return []*model.N{model.ExprS(model.CallN(model.BiDelete, model.Id("ob"), hh))}
+					},
+					"as-index": func(hh *model.N) []*model.N { return []*model.N{model.Print(model.Idx(model.Arr(model.Num(1)), hh))} },
+				}
+				var names []string
+				for k := range ctxs {
+					names = append(names, k)
+				}
+				sort.Strings(names)
+				for _, cn := range names {
+					var ref outc
+					var refSrc string
+					for pi, p := range prods {
+						prog := []*model.N{model.Var("lv", model.Str(text)), model.Fun("lf", nil, model.Return(model.Str(text))), model.Var("ob", model.Obj([]string{"k"}, []*model.N{model.Num(1)}))}
+						prog = append(prog, ctxs[cn](p.Mk())...)
+						got, o, src, ok := run(prog, p.Stdin)
+						if !ok {
+							continue
+						}
+						if pi == 0 {
+							ref, refSrc = got, src
+							continue
+						}
+						if got != ref {
+							c.Violate(fw.Replay{Sig: "C16|long-text|" + p.Name + "|" + cn, What: fmt.Sprintf("a text of %d characters behaves differently depending on how it was produced (producer %s vs literal, context %s)", n, p.Name, cn),
+								Mode: "file", Program: trunc(src, 400), Related: []string{trunc(refSrc, 200)}, Stdin: trunc(p.Stdin, 100), CLI: false,
+								Expected: fmt.Sprintf("as the literal: stdout %q diag %q status %d", trunc(ref.stdout, 80), ref.diag, ref.status),
+								Observed: fmt.Sprintf("stdout %q diag %q status %d", trunc(got.stdout, 80), got.diag, got.status), InStdout: trunc(o.Stdout, 200), InStderr: trunc(o.Stderr, 200), InStatus: o.Status})
+						}
+					}
 				}
 			}
 		}
